@@ -256,6 +256,11 @@ func (f *Frame) backEdge(from, to *ssa.BasicBlock, cond Term) {
 		o := e.addObl("invariant-preserved", fmt.Sprintf("%s#invariant-preserved:loop%d:%s%s", top, li.ordinal, clauseLabel(inv, i), tag), cond, t, rt.props)
 		o.Text = inv.Text
 	}
+	if f.parent == nil && (len(rt.steps) > 0 || len(rt.invs) > 0) {
+		// vacuity check: the transition obligations of this back edge are guarded by its reachability
+		cv := &Obligation{Name: fmt.Sprintf("%s#cover:loop%d-back-edge:from%d", top, li.ordinal, from.Index), Kind: "cover", Goal: cond, CmdIdx: len(e.cmds), Cover: true, Props: rt.props}
+		e.covers = append(e.covers, cv)
+	}
 	for i, stp := range rt.steps {
 		// transition obligation: locals visible at the back edge's source block, prev(x) = head value
 		env := f.loopEnv(li, back, f.st)
